@@ -388,6 +388,98 @@ def task_matcher(t):
     return {'viol': [v.to_json() for vs in byfp.values() for v in vs[:2]], 'n': n, 'hits': hits}
 
 
+# ---- rules that name unique connection names, across disconnects of OTHER connections --------------
+
+class UniqueSession(BusSession):
+    """Z (:1.0), P (:1.1), eight short-lived connections, Q (:1.10), R (holder), so that P's unique name is a proper
+    prefix of Q's.  Rules naming P or Q must keep working (and stay removable) whatever happens to the other one."""
+
+    def __init__(self, params=None):
+        BusSession.__init__(self, params or {})
+        self.connect_slot('Z')
+        self.connect_slot('P')
+        for i in range(8):
+            self.connect_slot('D')
+            self.close_slot('D')
+        self.connect_slot('Q')
+        self.connect_slot('R')
+        if not (self.uname['Q'].startswith(self.uname['P']) and self.uname['Q'] != self.uname['P']):
+            raise RuntimeError('unique names not prefix-related: %r %r' % (self.uname['P'], self.uname['Q']))
+        for l in ('Z', 'P', 'Q'):
+            self.method(l, 'AddMatch', [R.S(b"type='signal',member='Never'")])     # every connection holds some rule
+        for l in list(self.inbox):
+            self.take(l)
+
+
+def unique_scenarios():
+    rules = ["sender='{P}'", "sender='{Q}'", "destination='{Q}',eavesdrop='true'", "destination='{P}',eavesdrop='true'", "sender='{Q}',member='M'", "sender='{Z}'"]
+    combos = [(r,) for r in rules] + list(itertools.combinations(rules, 2))
+    for combo in combos:
+        for event in ('none', 'disc-P', 'disc-Q', 'disc-Z', 'disc-P-then-Z'):
+            yield {'part': 'unique', 'rules': list(combo), 'event': event}
+
+
+def task_unique(scns):
+    out, hits = [], {}
+    n = 0
+    for scn in scns:
+        try:
+            s = UniqueSession()
+            names = {k: s.uname[k].decode() for k in ('P', 'Q', 'Z')}
+            held = []
+            for rt in scn['rules']:
+                text = rt.format(**names).encode()
+                v = M.parse(text)
+                ser, rep = s.method('R', 'AddMatch', [R.S(text)])
+                if rep is None or rep.kind != R.MT_RETURN:
+                    out.append(Violation('rejected-but-valid', 'AddMatch', 'AddMatch(%r) refused' % text, scn))
+                    continue
+                held.append(v[1])
+            gone = set()
+            for ev in {'none': [], 'disc-P': ['P'], 'disc-Q': ['Q'], 'disc-Z': ['Z'], 'disc-P-then-Z': ['P', 'Z']}[scn['event']]:
+                s.close_slot(ev)
+                gone.add(ev)
+            for l in list(s.inbox):
+                s.take(l)
+            # probes: every live sender emits a broadcast and a unicast signal to every other live named connection
+            for src in ('P', 'Q', 'Z'):
+                if src in gone:
+                    continue
+                for dst in (None, 'P', 'Q', 'Z'):
+                    if dst == src or dst in gone:
+                        continue
+                    c = s.slots[src]
+                    ser = s.bus.next_serial(c)
+                    m = R.signal(ser, '/u', 'u.u', 'M', [R.S('u')], dest=s.uname[dst] if dst else None)
+                    s.send(src, m)
+                    view = M.MsgView(m.mtype, {s.uname[src]}, {s.uname[dst]} if dst else set(), m.interface, m.member, m.path, m.body, dst is not None)
+                    want = 1 if any(M.matches(r, view) for r in held) else 0
+                    got = sum(1 for o in s.take('R') if o.serial == ser and o.sender == s.uname[src])
+                    n += 1
+                    hits['unique-deliver' if want else 'unique-silent'] = hits.get('unique-deliver' if want else 'unique-silent', 0) + 1
+                    if got != want:
+                        out.append(Violation('not-delivered' if got < want else 'delivered-without-match', 'unique-name-rule:' + scn['event'],
+                                             'rules %r held by R, after %s: signal from %s (%s) to %s: R received %d copies, specification says %d' %
+                                             ([r.text for r in held], scn['event'], src, names[src], dst, got, want), scn))
+                    for l in list(s.inbox):
+                        s.take(l)
+            # rules that do not name a connection that went away must still be removable
+            for r in held:
+                named = {r.sender, r.destination}
+                if any(s.uname.get(g) in named for g in gone):
+                    continue
+                ser, rep = s.method('R', 'RemoveMatch', [R.S(r.text)])
+                if rep is None or rep.kind != R.MT_RETURN:
+                    out.append(Violation('remove-failed', 'unique-name-rule:' + scn['event'], 'RemoveMatch(%r) of a held rule answered %r after %s' % (r.text, rep and rep.errname, scn['event']), scn))
+        except HarnessDied as e:
+            out.append(crash_violation(e, scn))
+            worker_bus().h.close()
+    byfp = {}
+    for v in out:
+        byfp.setdefault(v.fingerprint, []).append(v)
+    return {'viol': [v.to_json() for vs in byfp.values() for v in vs[:2]], 'n': n, 'hits': hits}
+
+
 # ---- rule-set histories ------------------------------------------------------
 
 HIST_POOL = [b"path_namespace='/a'", b"path_namespace='/b'", b"arg0='x'", b"arg0='y'", b"member='M'", b"member='MM'",
@@ -470,8 +562,10 @@ def run(ctx):
     combos = singles + pairs
     for i in range(0, len(combos), 8):
         tasks.append((task_matcher, combos[i:i + 8]))
+    uscn = list(unique_scenarios())
+    tasks += [(task_unique, uscn[i:i + 6]) for i in range(0, len(uscn), 6)]
     pool = Pool()
-    nparse = nprobe = nquote = 0
+    nparse = nprobe = nquote = nuniq = 0
     done = 0
     try:
         for r in pool.imap(_dispatch, tasks):
@@ -485,6 +579,8 @@ def run(ctx):
                 nparse += r['n']
             elif any(k.startswith('quoting:') for k in r['hits']):
                 nquote += r['n']
+            elif any(k.startswith('unique-') for k in r['hits']):
+                nuniq += r['n']
             else:
                 nprobe += r['n']
             if ctx.expired():
@@ -498,7 +594,7 @@ def run(ctx):
     ctx.coverage.update({
         'states': st['states'] + len(combos), 'transitions': st['transitions'] + nparse + nprobe,
         'traces_validated_against_impl': st['transitions'] + nparse + nprobe,
-        'rule_strings': nparse, 'rule_x_message_probes': nprobe, 'quoting_rules': len(qrules), 'quoting_probes': nquote, 'history_states': st['states'], 'history_transitions': st['transitions'],
+        'rule_strings': nparse, 'rule_x_message_probes': nprobe, 'quoting_rules': len(qrules), 'quoting_probes': nquote, 'unique_name_scenarios': len(uscn), 'unique_name_probes': nuniq, 'history_states': st['states'], 'history_transitions': st['transitions'],
         'history_depth': st['completed_depth'], 'history_fixpoint': st['fixpoint'],
         'bound': 'parser: all concatenations of <= %d of %d lexical pieces%s + %d templated/boundary rules; matcher: %d single rules and %d rule pairs x %d probe messages; '
                  'histories: 2 holders x %d-rule pool (pairs differing in one value), add/remove/disconnect/reconnect, BFS depth %d' %
@@ -516,6 +612,9 @@ def replay(case):
         return [Violation.from_json(v) for v in r['viol']]
     if case.get('part') == 'parser-batch':
         r = task_parser([bytes.fromhex(x) for x in case['rules']])
+        return [Violation.from_json(v) for v in r['viol']]
+    if case.get('part') == 'unique':
+        r = task_unique([case])
         return [Violation.from_json(v) for v in r['viol']]
     if case.get('part') == 'quoting':
         r = task_quoting([bytes.fromhex(case['rule'])])
